@@ -20,7 +20,11 @@ THEOREMS = [
 RULE = ("operations: real tlparser.ParseSchema vs the Lean model on PRNG-generated schemas in varying layouts (enums, "
         "single/multi-constructor types, constructor/type name clashes in four spellings over one- and multi-hump type names, every primitive, flags on bits 0..31 and shared "
         "bits, vectors of every element kind, functions returning objects/Bool/vectors, namespaces, annotations and plain "
-        "comments in every position, section switches, excluded definitions), every schema file of the repository, "
+        "comments in every position, section switches, excluded definitions), degenerate but valid schemas (functions only "
+        "- no constructor anywhere, also behind an empty or builtin-only types section -, one definition, enums only, "
+        "constructors only, an empty functions section, only markers / comments / builtins, functions before types, "
+        "alternating sections: each through parser, classification, the real tlgen + compiler, and repeated generation), "
+        "every schema file of the repository, "
         "mutated texts and every prefix of some schemas (termination / no panic), the classification computed by "
         "gen.NewGenerator, and the real tlgen binary built from the working tree (two runs byte-identical, go build + "
         "go vet of the output with a stub Client, declarations read back with go/ast), and in the harness process itself: "
